@@ -1,5 +1,6 @@
 SPECIFICATION Spec
 CONSTANTS
+  Emit = FALSE
   Lits = {"x", "X", "~x", "y"}
   Values = {"1", "red"}
   MaxLen = 3
